@@ -2,7 +2,8 @@
 Model of the fix loop `Linter.lint_fix_parsed` (core/linter/linter.py), C13/C17/C18.
 Trees and fix sets are abstract identifiers. For each rule, `propose rule tree` is what `crawl` returns
 (`none` = no fixes) and `applyF tree fixes` is `apply_fixes` (new tree, `_valid`). The loop structure,
-the phases (`main` with `loop_limit` passes, `post` with 2), the first-pass "run all rules" override,
+the phases (`main` with `loop_limit` passes over all rules — the first-pass "run all rules" override is never undone —, `post` with 2 passes
+over the post rules),
 the `is_fix_compatible` skip, the four rejection branches, the stable-exit `break` and the
 `for … else` roll-back are transcribed.
 -/
@@ -50,7 +51,9 @@ def phaseLoop (sys : Sys) (all phaseRules : List Rule) (isFirstPhase : Bool) : N
   | 0, _, st => (st, true)                                       -- `for … else`: limit reached
   | fuel + 1, loopIdx, st =>
     let first := isFirstPhase && loopIdx == 0
-    let st' := pass sys (if first then all else phaseRules) first st
+    -- NOTE: `rules_this_phase = rule_pack.rules` is assigned inside the loop on the first pass and never reset, so *every* loop
+    -- of the main phase runs all rules (post-phase rules included); only the post phase is restricted to its own rules.
+    let st' := pass sys (if isFirstPhase then all else phaseRules) first st
     if !st'.changed then (st', false) else phaseLoop sys all phaseRules isFirstPhase fuel (loopIdx + 1) st'
 
 /-- `lint_fix_parsed(fix=True)`: returns (final tree, rolled back?) -/
